@@ -19,6 +19,10 @@ R = Run("C11", "all pairwise traces of sequences of length <= 3 over {A,C} and a
                 "helpers and score() vs column-wise recomputation; align_multiple on 3-subsets of 6 short sequences")
 MATRIX = align.SubstitutionMatrix.std_nucleotide_matrix()
 SM = MATRIX.score_matrix()
+# a matrix that is not symmetric: score(x over y) != score(y over x); rows belong to the earlier sequence of a pair
+_U = seq.NucleotideSequence.alphabet_unamb
+ASYM_TABLE = np.array([[5, -4, 1, -3], [-1, 6, -2, 4], [-3, 0, 7, -5], [2, -6, 3, 8]], dtype=np.int32)
+ASYM = align.SubstitutionMatrix(_U, _U, ASYM_TABLE)
 
 
 def valid_trace(tr, lens):
@@ -35,7 +39,7 @@ def valid_trace(tr, lens):
     return None
 
 
-def ref_score(codes, gap, terminal):
+def ref_score(codes, gap, terminal, SM=SM):
     n, L = codes.shape
     total = 0
     for p in range(L):
@@ -173,15 +177,15 @@ for trace in all_traces(3, 3)[::2]:
             lambda trace=trace: mixed_alphabet_contract(trace))
 
 
-def score_contract(seqs, trace, gap, terminal):
+def score_contract(seqs, trace, gap, terminal, matrix=MATRIX, table=SM):
     ali = align.Alignment(seqs, np.array(trace, dtype=np.int64), None)
     codes = align.get_codes(ali)
     if not terminal:
         firsts = [np.where(codes[i] != -1)[0] for i in range(len(seqs))]
         if not all(len(f) for f in firsts) or max(f[0] for f in firsts) > min(f[-1] for f in firsts):
             return None
-    got = align.score(ali, MATRIX, gap, terminal)
-    exp = ref_score(codes, gap, terminal)
+    got = align.score(ali, matrix, gap, terminal)
+    exp = ref_score(codes, gap, terminal, table)
     if got != exp:
         return f"score(gap={gap}, terminal_penalty={terminal}) = {got}, column-wise recomputation gives {exp}"
     return None
@@ -249,6 +253,10 @@ for a, b in pairs:
             for term in (True, False):
                 R.check("score() == column-wise recomputation", f"score gap={gap} terminal={term}", dict(desc, gap=gap, terminal=term),
                         lambda seqs=seqs, trace=trace, gap=gap, term=term: score_contract(seqs, trace, gap, term))
+                if a != b:
+                    R.check("score() == column-wise recomputation", f"score, asymmetric matrix, gap={gap} terminal={term}",
+                            dict(desc, gap=gap, terminal=term, matrix="asymmetric"),
+                            lambda seqs=seqs, trace=trace, gap=gap, term=term: score_contract(seqs, trace, gap, term, ASYM, ASYM_TABLE))
         for opts in ({}, {"distinguish_matches": True}, {"hard_clip": True}, {"include_terminal_gaps": True}, {"introns": "auto"},
                      {"introns": "auto", "distinguish_matches": True}):
             R.check("CIGAR write/read recovers the trace", f"cigar {sorted(opts)}", dict(desc, opts=opts),
@@ -292,6 +300,9 @@ for trace in T3:
         for term in (True, False):
             R.check("score() == column-wise recomputation", f"3-row score gap={gap} terminal={term}", {"trace": trace, "gap": gap, "terminal": term},
                     lambda trace=trace, gap=gap, term=term: score_contract(S3, trace, gap, term))
+            R.check("score() == column-wise recomputation", f"3-row score, asymmetric matrix, gap={gap} terminal={term}",
+                    {"trace": trace, "gap": gap, "terminal": term, "matrix": "asymmetric"},
+                    lambda trace=trace, gap=gap, term=term: score_contract(S3, trace, gap, term, ASYM, ASYM_TABLE))
 
 # progressive multiple alignment
 POOL = ["ACGT", "ACT", "AGGT", "TTACG", "ACGTT", "CGT"]
